@@ -108,9 +108,9 @@ type Result struct {
 	Name    string   `json:"name,omitempty"`
 	Group   string   `json:"group,omitempty"`
 	Flatten bool     `json:"flatten,omitempty"`
-	N       int      `json:"n,omitempty"`    // number of elements for slice-typed results (flatten / decorated groups)
-	Nil     bool     `json:"nil,omitempty"`  // slice result is nil rather than empty when N == 0
-	Slice   bool     `json:"sl,omitempty"`   // result type is []T (group decorators, flatten)
+	N       int      `json:"n,omitempty"`   // number of elements for slice-typed results (flatten / decorated groups)
+	Nil     bool     `json:"nil,omitempty"` // slice result is nil rather than empty when N == 0
+	Slice   bool     `json:"sl,omitempty"`  // result type is []T (group decorators, flatten)
 	Obj     []Result `json:"obj,omitempty"`
 	IsObj   bool     `json:"isobj,omitempty"`
 	Tag     string   `json:"tag,omitempty"`
